@@ -171,6 +171,11 @@ type Dense struct {
 	// When false all Tags must be empty.
 	HasKeysVals bool `json:"has_keys_vals,omitempty"`
 
+	// OmitEmptyCols: a group without nodes, without denseinfo and without keys_vals is written as
+	// the EMPTY DenseNodes message, as protobuf encoders write empty packed fields (not at all).
+	// No effect otherwise.  Valid (since /repo's fix for C01 audit item 2 the decoder accepts it).
+	OmitEmptyCols bool `json:"omit_empty_cols,omitempty"`
+
 	// Damage hooks.
 	OmitIDs, OmitLats, OmitLons bool `json:",omitempty"`
 	// Trim[col] = number of trailing entries dropped from that column (negative: entries
